@@ -30,8 +30,14 @@ ReadingPairs == Readings \X Reuses
 ToCfg(c, r) == [sys |-> c.cfg.sys, prov |-> c.cfg.prov, style |-> c.cfg.style, subv |-> c.cfg.subv,
                 mainv |-> c.cfg.mainv, wm |-> c.cfg.wm, fff |-> SeqToSet(c.cfg.fff), pre |-> c.cfg.pre,
                 nofb |-> r[1], reuse |-> "fresh"]
-ToArgs(x) == [con |-> x.con, fb |-> x.fb, req |-> x.req, af |-> x.af]
+ToArgs(x) == [con |-> x.con, fb |-> x.fb, req |-> x.req, af |-> x.af,
+               static |-> IF "static" \in DOMAIN x THEN x.static ELSE "unset"]
 ArgsOfSeq(xs) == [j \in 1..Len(xs) |-> ToArgs(xs[j])]
+\* cases with a static keyword / default_library are generated inside StaticClass only
+InClass(c) == LET as == ArgsOfSeq(c.as)
+              IN (\E j \in 1..Len(as) : as[j].static # "unset") \/ "dl" \in DOMAIN c.cfg
+                 => /\ StaticClass(c.cfg, as) /\ Len(c.r2) = 0
+                    /\ c.cfg.dl \in DefLibs /\ c.cfg.sdl \in {"none"} \cup DefLibs /\ as[1].static \in StaticKws
 
 \* what the build definition can see of the state of S: a subproject that does not exist leaves no trace
 ObsSub(cfg, s) == IF s = "ok" THEN "ok"
@@ -87,6 +93,8 @@ ClauseAt(cfg, st, as, obs, j) ==
        ELSE IF j > 1 /\ as[j] = as[j - 1] /\ <<got.kind, got.v>> # <<obs[j - 1].kind, obs[j - 1].v>>
             THEN "RepeatStable"
        ELSE IF st.cache # None THEN "FirstResultSticks"
+       \* the keyword / default_library are the only thing that tells this cell from one that is fine
+       ELSE IF a.static # "unset" \/ "dl" \in DOMAIN cfg THEN "StaticKeywordIrrelevant"
        ELSE IF st.pc # None THEN "PersistentCacheOnlyReusesPositive"
        ELSE "DecisionTable"
 
@@ -109,7 +117,8 @@ Diagnose(id, V, run) ==
 
 Pinned == <<"existing", "cached">>
 Judge(c) ==
-    IF \E r \in ReadingPairs : Matches(c, r) THEN Verdict(c.id, "ok", 0, 0, NoObs, NoObs)
+    IF ~InClass(c) THEN Verdict(c.id, "Observation", 0, 0, NoObs, NoObs)
+    ELSE IF \E r \in ReadingPairs : Matches(c, r) THEN Verdict(c.id, "ok", 0, 0, NoObs, NoObs)
     ELSE IF ~(\E r \in ReadingPairs : MatchRun(View1(c, r))) THEN Diagnose(c.id, View1(c, Pinned), 1)
     ELSE \* run 1 is fine under some reading; judge run 2 under the pinned readings that fit run 1, if any
          LET R == { r \in ReadingPairs : MatchRun(View1(c, r)) }
